@@ -1,6 +1,7 @@
 package harness
 
 import (
+	"bytes"
 	"context"
 	"strings"
 	"testing"
@@ -158,6 +159,14 @@ func (w *world) checkQuiescence(sc *scenario, complete bool) {
 	extDelete := c.classes["external-delete"]
 
 	_, _ = w.be.Walk(func(k []byte, v interface{}, _ time.Time) error {
+		if bytes.HasPrefix(k, []byte("neighbour-")) && c.classes["external-cleanup-and-neighbour-writes"] {
+			// written by the harness itself (external action): must hold what was written there
+			tk, ok := tokenKey(v)
+			c.Assert(ok && tk == string(k), "value-under-wrong-key", "backend holds %v under key %s, which was written directly with its own token", v, keyName(k))
+
+			return nil
+		}
+
 		c.Assert(valid[string(k)], "foreign-key-written", "backend holds key %s which no Get was called with", keyName(k))
 
 		if tk, ok := tokenKey(v); ok {
